@@ -15,7 +15,7 @@ Record trun := mkTR {
   tr_out : N;                 (* 0 ok | 1 failed | 2 died (store reopened) | 9 other *)
   tr_tok : list Z;            (* persisted continuation token per member, -1 = "" *)
   tr_sink : list version;     (* latest view of the sink dataset, one entry per id *)
-  tr_sinklen : Z;             (* length of the sink's change feed (drift information) *)
+  tr_sinklen : Z;             (* length of the sink's change feed *)
   tr_srclens : list Z         (* lengths of the source change feeds at that moment *)
 }.
 
@@ -53,7 +53,8 @@ Definition run_agree (st : state) (out : option outcome) (r : trun) : bool :=
   end
   && zlist_eqb (map tok_code (st_tok st)) (tr_tok r)
   && view_eqb (st_sink st) (tr_sink r)
-  && zlist_eqb (map (fun f => Z.of_nat (length f)) (st_srcs st)) (tr_srclens r).
+  && zlist_eqb (map (fun f => Z.of_nat (length f)) (st_srcs st)) (tr_srclens r)
+  && Z.eqb (Z.of_nat (length (st_sink st))) (tr_sinklen r).
 
 Fixpoint agree_ops (v : variant) (c : tcase) (st : state) (ops : list top) : bool * state :=
   match ops with
@@ -103,8 +104,18 @@ Fixpoint forallb3 {A B C} (f : A -> B -> C -> bool) (la : list A) (lb : list B) 
   | _, _, _ => false
   end.
 
+(** the source feeds as they were when the run was observed *)
+Fixpoint cuts (srcs : list feed) (lens : list Z) : list feed :=
+  match srcs, lens with
+  | f :: srcs', n :: lens' => firstn (Z.to_nat n) f :: cuts srcs' lens'
+  | _, _ => []
+  end.
+
 Definition foreign_deleted_b (srcs : list feed) (view : feed) : bool :=
-  forallb (fun w => existsb (fun s => zmem (v_id w) (ids s)) srcs || v_del w) view.
+  forallb (fun i => match cur view i with
+                    | Some w => existsb (fun s => zmem i (ids s)) srcs || v_del w
+                    | None => true
+                    end) (ids view).
 
 (** the checks on one run: [srcs] = final observed feeds, cut to the lengths observed at
     the run; [prev] = the run just before with nothing in between (if any) *)
@@ -119,7 +130,7 @@ Definition run_conv_spec (srcs : list feed) (r : trun) : bool :=
   if N.eqb (tr_out r) 0 then
     forallb3 (fun f n tz => conv1_b (firstn (Z.to_nat n) f) tz (tr_sink r)) srcs (tr_srclens r) (tr_tok r)
     && (if tr_full r then
-          foreign_deleted_b (map (fun fn => firstn (Z.to_nat (snd fn)) (fst fn)) (combine srcs (tr_srclens r))) (tr_sink r)
+          foreign_deleted_b (cuts srcs (tr_srclens r)) (tr_sink r)
         else true)
   else true.
 
@@ -138,10 +149,11 @@ Definition run_idem_spec (prev : option trun) (r : trun) : bool :=
     source member contains is a version that member's feed contains (in particular a failed
     fullsync deletes nothing) *)
 Definition run_origin_spec (srcs : list feed) (r : trun) : bool :=
-  forallb (fun w =>
-    forallb (fun fn => let cut := firstn (Z.to_nat (snd fn)) (fst fn) in
-                       negb (zmem (v_id w) (ids cut)) || existsb (version_eqb w) cut)
-            (combine srcs (tr_srclens r))) (tr_sink r).
+  forallb (fun i => match cur (tr_sink r) i with
+                    | Some w => forallb (fun cut => negb (zmem i (ids cut)) || existsb (version_eqb w) cut)
+                                        (cuts srcs (tr_srclens r))
+                    | None => true
+                    end) (ids (tr_sink r)).
 
 Definition run_spec (srcs : list feed) (prev : option trun) (r : trun) : bool :=
   run_safe_spec srcs r && run_conv_spec srcs r && run_idem_spec prev r && run_origin_spec srcs r.
